@@ -23,11 +23,12 @@ from .c06 import ScriptGen, push, pushnum, parse_ops, stack_arg, parse_stack_arg
 class C07(Prop, ScriptGen):
     id = 'C07'
     title = 'Script verification is total, contained and side-effect free on any input'
-    lean_targets = ['BtcVerif.Props.C07']
+    lean_targets = ['BtcVerif.Props.C07', 'BtcVerif.Props.C06Concrete']
     table_groups = ['Opcodes']
     theorems = ['BtcVerif.C07.' + t for t in (
         'verify_total', 'only_known_findings', 'verify_contained', 'error_state_limits', 'eval_contained',
-        'eval_state_limits')]
+        'eval_state_limits')] + ['BtcVerif.C06.Concrete.verify_contained_real',
+                                 'BtcVerif.C06.Concrete.error_state_limits_real']
     anchors = [('bitcoin/core/scripteval.py', f) for f in (
         'EvalScript', 'VerifyScript', '_EvalScript', '_CheckMultiSig', '_CheckSig', 'EvalScriptError',
         'MissingOpArgumentsError', 'ArgumentsInvalidError', 'VerifyOpFailedError')] + \
@@ -168,6 +169,13 @@ class C07(Prop, ScriptGen):
                     steps = [st_[:3] + [str(int(st_[3]) | (1 if int(st_[3]) & 4 else 0))] + st_[4:]
                              if k != (1 if r < 0.25 else len(steps) - 1) else st_ for k, st_ in enumerate(steps)]
                 yield Case(op='c07.seq', args=[x for st_ in steps for x in st_], tag=tag)
+        # CHECKMULTISIG matrix (shared with C06): all signature lists for n <= 2 keys (n = 3 in thorough), any flag set
+        for n in ((1, 2, 3) if big else (1, 2)):
+            for (sg_, spk_, mask, tag) in self.multisig_matrix(n, n % 3, 0):
+                i += 1
+                if i % nshards != shard:
+                    continue
+                yield self.vf(sg_, spk_, mask | rng.choice([0, 8]), n % 3, 0, rng.randrange(2), tag=tag)
         # (3) random byte strings
         for _ in range(26000 if big else 800):
             ti = rng.randrange(3)
